@@ -127,9 +127,17 @@ def dtype_inheritance_sites(ev, data_roots):
         if not a or a[0] != "call":
             continue
         cn = call_name(a)
+        kw = dict(a[3]) if len(a) > 3 else {}
+        if cn in ("numpy.empty", "numpy.zeros", "numpy.ones", "numpy.full") and a[2]:
+            # np.empty(shape, dtype=x.dtype): the same inheritance, spelt out
+            dt = kw.get("dtype") or (a[2][-1] if len(a[2]) > (2 if cn == "numpy.full" else 1) else None)
+            if dt is not None and dt.key().endswith(".dtype") and any(dt.key()[:-6] == r or dt.key().startswith(r + "[") or dt.key().startswith(r + ".")
+                                                                       for r in data_roots):
+                key = e.value.key() if e.kind == "assign" else e.target.key()
+                suspects[key] = (e, f"{cn}(..., dtype={dt}) takes the dtype of {dt.key()[:-6]}")
+            continue
         if cn not in DTYPE_INHERITING or not a[2]:
             continue
-        kw = dict(a[3]) if len(a) > 3 else {}
         if "dtype" in kw and any(w in kw["dtype"].key() for w in ("float", "complex", "double")):
             continue
         src = a[2][0]
@@ -459,3 +467,16 @@ def list_appends(ev, sink: P):
             for it in seq_items(e.extra["args"][0]) or ():
                 out.append(Event("call", e.node, e.guards, e.loops, target=e.target, value=None, extra={"args": [it], "kwargs": []}))
     return out
+
+
+def asarray_of_params_hook(params):
+    """call_hook: np.asarray(p) / np.asanyarray(p) of a parameter, without dtype, is the parameter itself for the purposes of layout
+    and dtype rules (same length, same values, same dtype)."""
+    def hook(ev, callee, args, kwargs, node):
+        ca = callee.as_atom()
+        if ca and ca[0] == "name" and ca[1] in ("numpy.asarray", "numpy.asanyarray") and len(args) == 1 and not kwargs:
+            aa = args[0].as_atom()
+            if aa and aa[0] == "name" and aa[1] in params:
+                return args[0]
+        return None
+    return hook
